@@ -1,6 +1,6 @@
 """C16 TPSA is invariant under rigid translations.
 
-Spec: {"grid": grid spec, "lame": {"mu","lmbda"}, "bc": vectorial bc spec, "t": [t0,t1,t2]}
+Spec: {"grid": grid spec, "lame": {"mu","lmbda"}, "bc": vectorial bc spec, "t": [t0,t1,t2], "reuse": null|{...}}
 (see gen/fv_mech.py).  pp.Tpsa is discretised as in its class docstring; the uniform
 displacement t (cell values t, Dirichlet data t, zero traction on Neumann faces) must give zero
 stress on every face, and the full block system of the class docstring /
@@ -23,7 +23,12 @@ RULE = (
     "Lame parameters mu in [0.5,3], lambda in [0.1,3], a translation vector t (components in [-3,3], also unit "
     "axis vectors) and a boundary assignment: all Dirichlet, per-face Dirichlet/Neumann mix (pattern), as few "
     "Dirichlet faces as possible, or component-wise mixed (roller) faces with Dirichlet in some components and "
-    "Neumann in the others; data t_k in Dirichlet components and zero traction in Neumann components. For the "
+    "Neumann in the others; data t_k in Dirichlet components and zero traction in Neumann components. In two "
+    "thirds of the cases the discretisation asserted on is a RE-discretisation: a first discretisation with other "
+    "boundary types / Lame parameters / stretched node coordinates, then the inputs are edited in place (is_dir / "
+    "is_neu of the same bc object, mu / lmbda / values of the same tensor, nodes of the same grid + "
+    "compute_geometry) to the case proper, directly or there-and-back (final -> other -> final), with the same or a "
+    "new Tpsa object and the same or a new data dictionary. For the "
     "solve to be well posed Neumann faces are turned into Dirichlet faces, by construction, until the Dirichlet "
     "face centres (globally) and the centres of the held faces of every cell span dim-1 dimensions (only fully "
     "Dirichlet and interior faces count as holding; no "
@@ -54,7 +59,9 @@ ASSUMPTIONS = [
     "Neumann data consistent with the translation: zero traction",
 ]
 REQUIRED = {"solved": 0.95, "dim2": 0.2, "dim3": 0.2, "neumann-present": 0.3, "bc-all_dir": 0.05, "bc-mix": 0.12,
-            "bc-roller": 0.1, "roller-present": 0.06,
+            "bc-roller": 0.1, "roller-present": 0.06, "reuse-none": 0.1, "reuse-bc-edited": 0.2,
+            "reuse-geometry-edited": 0.08, "reuse-stiffness-edited": 0.08, "reuse-back": 0.15, "reuse-forward": 0.15,
+            "reuse-same-discr": 0.15, "reuse-new-discr": 0.15, "reuse-same-data": 0.15, "reuse-new-data": 0.15,
             "kind-tri": 0.02, "kind-tet": 0.01, "kind-poly": 0.02, "kind-polyx": 0.02, "perturbed": 0.05}
 
 KAPPA_SINGULAR = 1e10
@@ -63,6 +70,9 @@ _f = lambda lo, hi: st.floats(lo, hi, allow_nan=False, allow_infinity=False, all
 
 
 # ----------------------------------------------------------------------------- strategy
+_BC_MODES = ("mix", "mix", "roller", "roller", "all_dir", "few_dir")
+
+
 @st.composite
 def _spec(draw, tier):
     thorough = tier == "thorough"
@@ -72,8 +82,8 @@ def _spec(draw, tier):
         t = draw(st.sampled_from([[1.0, 0.0, 0.0], [0.0, 1.0, 0.0], [0.0, 0.0, 1.0], [1.0, -2.0, 3.0]]))
     else:
         t = [draw(_f(-3, 3)) for _ in range(3)]
-    return {"grid": g, "lame": draw(fm.lame_spec()), "bc": draw(fm.vbc_spec(modes=("mix", "mix", "roller", "roller", "all_dir", "few_dir"))),
-            "t": t}
+    return {"grid": g, "lame": draw(fm.lame_spec()), "bc": draw(fm.vbc_spec(modes=_BC_MODES)), "t": t,
+            "reuse": draw(fm.reuse_spec(_BC_MODES))}
 
 
 def strategy(tier):
@@ -94,7 +104,17 @@ def check(spec):
     # component-wise types (nd, nf); for the non-roller modes every face has one type in all components
     bc, is_dir, is_neu = fm.build_vbc_components(spec["bc"], g, edge_rule=False, min_dir_rank=nd - 1,
                                                  min_cell_rank=nd - 1)
-    M = fm.discretize_tpsa(g, lame, bc)
+    # single discretisation, or re-discretisation after in-place edits of bc types / geometry / stiffness;
+    # everything below is asserted on the last discretisation
+    reuse = spec.get("reuse")
+
+    def other_types(bc0):
+        _, d0, n0 = fm.build_vbc_components(bc0, g, edge_rule=False)
+        return d0, n0
+
+    states = fm.reuse_states(g, reuse, (is_dir, is_neu), lame, other_types)
+    M = fm.discretize_sequence(g, "tpsa", states, same_discr=bool(reuse and reuse["same_discr"]),
+                               same_data=bool(reuse and reuse["same_data"]))
 
     fs = {"c": spec["t"], "G": [[0.0] * 3 for _ in range(3)]}
     t = np.asarray(spec["t"], dtype=float)[:nd]
@@ -149,7 +169,7 @@ def check(spec):
                       scale=tn, what="solid pressure vs 0")
 
     meta = grid_meta(spec["grid"])
-    labels = list(meta["labels"]) + ["bc-" + spec["bc"]["mode"]]
+    labels = list(meta["labels"]) + ["bc-" + spec["bc"]["mode"]] + fm.reuse_labels(reuse)
     labels.append("solved" if solved else "unsolvable-skipped")
     if n_neu:
         labels.append("neumann-present")
